@@ -13,14 +13,16 @@ import (
 )
 
 type getOp struct {
-	Base  string   // "" | "h" | "b"
-	Extra string   // "" | "l" | "r"
-	Addrs []uint64 // address filter of a logs plan
-	Start uint64
-	Limit uint64
-	FailB bool
-	FailX bool
-	Fault int
+	Base   string   // "" | "h" | "b"
+	Extra  string   // "" | "l" | "r"
+	Traces bool     // trace_block for every block, after the receipts / logs
+	FailT  int      // >= 0: the trace_block request for the FailT-th block of the range fails
+	Addrs  []uint64 // address filter of a logs plan
+	Start  uint64
+	Limit  uint64
+	FailB  bool
+	FailX  bool
+	Fault  int
 }
 
 func (o getOp) filter() *glf.Filter {
@@ -33,6 +35,7 @@ func (o getOp) filter() *glf.Filter {
 	f.UseBlocks = o.Base == "b"
 	f.UseLogs = o.Extra == "l"
 	f.UseReceipts = o.Extra == "r"
+	f.UseTraces = o.Traces
 	return f
 }
 
@@ -41,6 +44,9 @@ func genChain(r *lib.RNG, n int) cachesim.Chain {
 	for i := range c {
 		c[i] = cachesim.Block{Hash: uint64(100 + i), Time: uint64(1000 + 12*i)}
 		ntx := r.Range(0, 3)
+		if ntx == 0 && r.Chance(2, 3) {
+			ntx = 1 // a block without transactions makes every trace plan over it fail
+		}
 		idx := uint64(0)
 		logIdx := uint64(0)
 		for t := 0; t < ntx; t++ {
@@ -49,6 +55,11 @@ func genChain(r *lib.RNG, n int) cachesim.Chain {
 			for l := r.Range(0, 3); l > 0; l-- {
 				tx.Logs = append(tx.Logs, cachesim.Log{Idx: logIdx, Addr: uint64(r.Range(1, 3)), Body: uint64(50000 + 1000*i + 2*int(logIdx))})
 				logIdx += uint64(r.Range(1, 2))
+			}
+			if !r.Chance(1, 6) { // most transactions have trace actions
+				for a := r.Range(1, 3); a > 0; a-- {
+					tx.Traces = append(tx.Traces, uint64(200000+10000*i+100*t+2*a))
+				}
 			}
 			c[i].Txs = append(c[i].Txs, tx)
 			idx++
@@ -82,13 +93,16 @@ func genGetOps(r *lib.RNG, chainLen, n int, faults bool) []getOp {
 	for i := range ops {
 		k := lib.Pick(r, pool)
 		ops[i] = getOp{Base: lib.Pick(r, bases), Extra: lib.Pick(r, []string{"l", "l", "l", "r", ""}),
-			Start: k.s, Limit: k.l, Fault: r.Intn(cachesim.NFaults)}
+			Start: k.s, Limit: k.l, Fault: r.Intn(cachesim.NFaults), Traces: r.Chance(1, 3), FailT: -1}
 		if ops[i].Extra == "l" {
 			ops[i].Addrs = lib.Pick(r, addrSets)
 		}
 		if faults {
 			ops[i].FailB = r.Chance(1, 6)
 			ops[i].FailX = r.Chance(1, 7)
+			if ops[i].Traces && r.Chance(1, 5) {
+				ops[i].FailT = r.Intn(int(ops[i].Limit))
+			}
 			if ops[i].FailB && ops[i].Base != "" && r.Chance(1, 2) {
 				// a reply that decodes but is rejected by validate
 				ops[i].Fault = cachesim.FaultBadLink + r.Intn(2)
@@ -167,12 +181,32 @@ func genGetSeq(seed uint64) lib.Case {
 	)
 	for i, op := range ops {
 		srv.SetFaults(op.FailB, op.FailX, op.Fault)
-		b0, x0 := srv.Count(cachesim.ClsBase), srv.Count(cachesim.ClsExtra)
+		if op.FailT >= 0 {
+			srv.FailTrace(op.Start+uint64(op.FailT), 1)
+		}
+		b0, x0, t0 := srv.Count(cachesim.ClsBase), srv.Count(cachesim.ClsExtra), srv.Count(cachesim.ClsTrace)
 		var bs []eth.Block
 		var err error
 		panicked, pmsg := lib.Catch(func() { bs, err = cc.Get(ctx, srv.URL(), op.filter(), op.Start, op.Limit) })
-		nb, nx := srv.Count(cachesim.ClsBase)-b0, srv.Count(cachesim.ClsExtra)-x0
+		nb, nx, nt := srv.Count(cachesim.ClsBase)-b0, srv.Count(cachesim.ClsExtra)-x0, srv.Count(cachesim.ClsTrace)-t0
 		srv.SetFaults(false, false, 0)
+		traceFailed := false
+		if op.FailT >= 0 {
+			traceFailed = nt > op.FailT // the failing request was reached
+			srv.FailTrace(op.Start+uint64(op.FailT), 0)
+		}
+		// traces() treats an empty trace_block reply as an error
+		for j := 0; j < nt && j < int(op.Limit); j++ {
+			has := false
+			for _, t := range chain[op.Start+uint64(j)].Txs {
+				if len(t.Traces) > 0 {
+					has = true
+				}
+			}
+			if !has {
+				traceFailed = true
+			}
+		}
 		if panicked {
 			fails = append(fails, fmt.Sprintf("op %d: panic %s", i, pmsg))
 			err = fmt.Errorf("panic")
@@ -192,13 +226,17 @@ func genGetSeq(seed uint64) lib.Case {
 			dump = cachesim.DumpBlocks(bs, false)
 			res = "(Some " + cachesim.CoqBlocks(dump) + ")"
 		}
-		cops = append(cops, fmt.Sprintf("(mkGop %s %s %s (%d, %d) %s %s %s, mkGobs %s %d %d)",
-			coqKind(op.Base), coqExtra(op.Extra), coqNs(op.Addrs), op.Start, op.Limit, kept,
-			b2c(op.FailB), b2c(op.FailX), res, nb, nx))
+		failt := "None"
+		if op.FailT >= 0 {
+			failt = fmt.Sprintf("(Some %d%%nat)", op.FailT)
+		}
+		cops = append(cops, fmt.Sprintf("(mkGop %s %s %s %s (%d, %d) %s %s %s %s, mkGobs %s %d %d %d)",
+			coqKind(op.Base), coqExtra(op.Extra), b2c(op.Traces), coqNs(op.Addrs), op.Start, op.Limit, kept,
+			b2c(op.FailB), b2c(op.FailX), failt, res, nb, nx, nt))
 
 		// ---- direct oracle ----
 		rk := reuseKey{op.Base, op.Start, op.Limit}
-		plan := op.Extra + fmt.Sprint(op.Addrs)
+		plan := op.Extra + fmt.Sprint(op.Addrs, op.Traces)
 		if p, ok := seenPlan[rk]; ok && p != plan && op.Base != "" {
 			mixed = true
 		}
@@ -210,13 +248,16 @@ func genGetSeq(seed uint64) lib.Case {
 			sinceFetch[rk] = 0 // a new successful base fetch
 		}
 		if err != nil {
-			if !((op.FailB && nb > 0) || (op.FailX && nx > 0)) {
+			if !((op.FailB && nb > 0) || (op.FailX && nx > 0) || traceFailed) {
 				fails = append(fails, fmt.Sprintf("op %d: error %v although no request failed", i, err))
 			}
 			continue
 		}
-		if (op.FailB && nb > 0) || (op.FailX && nx > 0) {
+		if (op.FailB && nb > 0) || (op.FailX && nx > 0) || traceFailed {
 			fails = append(fails, fmt.Sprintf("op %d: success although a request failed", i))
+		}
+		if op.Traces && nt != int(op.Limit) {
+			fails = append(fails, fmt.Sprintf("op %d: %d trace requests for %d blocks", i, nt, op.Limit))
 		}
 		if op.Extra != "" && nx != 1 {
 			fails = append(fails, fmt.Sprintf("op %d: the caller's own %s request was not sent", i, op.Extra))
@@ -234,9 +275,9 @@ func genGetSeq(seed uint64) lib.Case {
 			continue
 		}
 		udump := cachesim.DumpBlocks(ubs, false)
-		got := cachesim.View(dump, op.Extra, op.Addrs)
-		want := cachesim.View(udump, op.Extra, op.Addrs)
-		truth := cachesim.Truth(chain, op.Base, op.Extra, op.Addrs, op.Start, op.Limit)
+		got := cachesim.ViewT(dump, op.Extra, op.Traces, op.Addrs)
+		want := cachesim.ViewT(udump, op.Extra, op.Traces, op.Addrs)
+		truth := cachesim.TruthT(chain, op.Base, op.Extra, op.Traces, op.Addrs, op.Start, op.Limit)
 		if !cachesim.EqualDump(got, want) {
 			fails = append(fails, fmt.Sprintf("op %d: cached view %v differs from uncached view %v", i, got, want))
 		}
